@@ -59,7 +59,7 @@ class C11(Prop):
         self.tools = tools
 
     def cases(self, tier, seed, shard, nshards):
-        n_random = {"quick": 6, "thorough": 400}[tier]
+        n_random = {"quick": 6, "thorough": 1200}[tier]
         i = 0
         for zone in env.ZONES:
             r = env.rng("C11", seed, zone)
